@@ -667,8 +667,8 @@ class HStep(Step):
                     src = self.get_obj(v["obj"])
                     if src.t != t or src is o:
                         raise Skip()
-                    if not self._same_layout(o, path, src):
-                        raise Skip()
+                    if not self._same_layout(o, path, src) or not objsim._shape_compatible(schema, t, node, src.node):
+                        raise Skip()  # same extents are not enough: empty arrays of different shapes have equal extents
                     val = src.dressed if (getattr(src, "dressed", None) is not None and not raw_holder) else src.handle()
                     vnode = M.copy_node(schema, t, src.node, False)
                     if src.buf is not o.buf:
